@@ -480,7 +480,7 @@ func init() {
 		Run:             c14Run,
 		Replay:          c14Replay,
 		QuickBudget:     150 * time.Second,
-		ThoroughBudget: 15 * time.Minute,
+		ThoroughBudget: 8 * time.Minute,
 		HangIsViolation: true,
 		HangLimit:       20 * time.Second,
 	})
